@@ -653,7 +653,9 @@ func RunCheck(id, tier string) int {
 						total.NViolations++
 						total.Violations = append(total.Violations, Violation{Msg: "case does not terminate (watchdog fired twice, also in isolation): " + string(sb[:min(len(sb), 300)]), Replay: p})
 					default:
-						total.Inconclusive = append(total.Inconclusive, fmt.Sprintf("shard %d: watchdog fired once, case finished in isolation (%s); remaining cases of the shard not run", r.shard, verdict))
+						var rr ReplayRecord
+						json.Unmarshal(sb, &rr)
+						total.Inconclusive = append(total.Inconclusive, fmt.Sprintf("shard %d: watchdog fired once (%s; family %s, case %d), case finished in isolation (%s); remaining cases of the shard not run", r.shard, rr.Msg, rr.Family, rr.Index, verdict))
 						total.Counters["inconclusive"]++
 					}
 					continue
